@@ -18,7 +18,7 @@ RULE = ('values: text over ASCII / Latin-1 / BMP / astral planes with CR, LF, NU
         'http.client.responses for the blacklist. Non-trivial = the value contains a control character or a non-ASCII character or is '
         'not a str; distinct = distinct (entry point, class, repr(value)).')
 PYOPT = {'quick': 1, 'thorough': 1}     # one unit of every kind is also served by an interpreter started with -O (assert statements compiled out)
-REQUIRED = ['units_run_under_python_-O', 'multi_valued_blacklist_checked', 'third_or_later_value_of_a_header', 'ctl_rejected', 'clean_accepted_and_roundtripped', 'non_ascii_roundtripped', 'multi_value_order_checked', 'blacklist_204',
+REQUIRED = ['units_run_under_python_-O', 'length_sweep_cases', 'multi_valued_blacklist_checked', 'third_or_later_value_of_a_header', 'ctl_rejected', 'clean_accepted_and_roundtripped', 'non_ascii_roundtripped', 'multi_value_order_checked', 'blacklist_204',
             'blacklist_304', 'statuses_checked', 'wsgi_emissions', 'entry_setitem', 'entry_append', 'entry_setdefault', 'entry_attr',
             'entry_ctor_dict', 'entry_ctor_pairs', 'entry_ctor_iterable', 'response_inspected_after_a_rejection', 'entry_more_headers', 'entry_httperror_options', 'non_str_types']
 ASSUMPTIONS = ['header names are ASCII tokens (the statement speaks of values)',
@@ -479,12 +479,57 @@ def wsgi_unit(ctx, unit):
             ctx.sample({'in_handler': how, 'name': n, 'value': v, 'status': r.status, 'wire': emitted_for(r.headers, real)})
 
 
+def length_unit(ctx, unit):
+    """Every value length 1..N (and lengths around powers of two) x control character x position x setter: the guard does not depend on
+    how long the value is.  Clean values of the same lengths must be emitted unchanged."""
+    from ombott.response import Response, HTTPResponse
+    lengths = list(range(1, unit['upto'] + 1)) + [511, 512, 513, 1023, 1024, 1025, 4095, 4096, 4097, 8191, 8192, 8193, 65535, 65536, 65537]
+    for L in lengths:
+        clean = ('v' * L)
+        for ctl in CTL:
+            for pos in sorted({0, L // 2, L - 1}):
+                v = clean[:pos] + ctl + clean[pos + 1:]
+                for entry in ('setitem', 'append', 'setdefault', 'ctor_dict', 'ctor_pairs', 'more_headers', 'attr'):
+                    ctx.case(('len', L, ctl, pos, entry), nontrivial=True)
+                    ctx.count('length_sweep_cases')
+                    wit = {'unit': {'kind': 'note', 'entry': entry, 'length': L, 'control_character': repr(ctl), 'position': pos}}
+                    r = Response()
+                    try:
+                        if entry == 'setitem':
+                            r.headers['X-L'] = v
+                        elif entry == 'append':
+                            r.headers.append('X-L', v)
+                        elif entry == 'setdefault':
+                            r.headers.setdefault('X-L', v)
+                        elif entry == 'ctor_dict':
+                            r = HTTPResponse('b', 200, {'X-L': v})
+                        elif entry == 'ctor_pairs':
+                            r = HTTPResponse('b', 200, [('X-L', 'ok'), ('X-L', v)])
+                        elif entry == 'more_headers':
+                            r = HTTPResponse('b', 200, X_L=v)
+                        else:
+                            r.content_type = v
+                    except (ValueError, TypeError):
+                        ctx.count('ctl_rejected')
+                        hl = r.headerlist
+                    else:
+                        hl = r.headerlist
+                        ctx.violation(f'control-character-accepted:{entry}', f'value of length {L} with {ctl!r} at {pos} accepted through {entry}', wit)
+                    if any(has_ctl(val) for _, val in hl):
+                        ctx.violation('control-character-emitted', f'value of length {L} with {ctl!r} at {pos} through {entry}: in the header list', wit)
+        r = Response()
+        r.headers['X-L'] = clean
+        if ('X-L', clean) not in r.headerlist:
+            ctx.violation('emitted-value-differs:setitem', f'clean value of length {L} not emitted unchanged', {'unit': {'kind': 'note', 'length': L}})
+    ctx.sample({'lengths': f'1..{unit["upto"]} and around 512, 1024, 4096, 8192, 65536', 'positions': 'first, middle, last', 'setters': 7})
+
+
 def plan(tier, seed):
     if tier == 'quick':
         return ([{'kind': 'setter', 'n': 4000, 'sub': i} for i in range(4)] + [{'kind': 'multi', 'n': 1500}, {'kind': 'status'},
-                {'kind': 'wsgi', 'n': 3000}])
+                {'kind': 'wsgi', 'n': 3000}, {'kind': 'length', 'upto': 300}])
     return ([{'kind': 'setter', 'n': 50000, 'sub': i} for i in range(16)] + [{'kind': 'multi', 'n': 20000, 'sub': i} for i in range(4)]
-            + [{'kind': 'status'}] + [{'kind': 'wsgi', 'n': 25000, 'sub': i} for i in range(8)])
+            + [{'kind': 'status'}] + [{'kind': 'wsgi', 'n': 25000, 'sub': i} for i in range(8)] + [{'kind': 'length', 'upto': 2100}])
 
 
 def run_unit(ctx, unit):
@@ -497,5 +542,7 @@ def run_unit(ctx, unit):
         status_unit(ctx, unit)
     elif k == 'wsgi':
         wsgi_unit(ctx, unit)
+    elif k == 'length':
+        length_unit(ctx, unit)
     elif k == 'note':
         print('  witness (re-run the tier to re-evaluate):', unit)
